@@ -353,17 +353,18 @@ func ruleCloneContract(rule string) func(p *Prog, r *Result) {
 					return false, "Clone writes to another document: " + e.String()
 				}
 			}
-			okData := false
+			// what the clone's Data holds in the end (the last assignment counts: an explicit zero value may precede it)
+			var last *T
 			for _, e := range pa.Effects {
 				if e.Kind == "fieldinit" && strings.HasSuffix(e.Callee, "Document.Data") && e.Args[0].String() == res.String() {
-					if !mResOf(0, mCall("bkl.deepClone", mOp("field", mParam("d"))))(e.Args[1]) {
-						return false, "the clone's Data is " + e.Args[1].String() + ", not a deep copy of the original's Data"
-					}
-					okData = true
+					last = e.Args[1]
 				}
 			}
-			if !okData {
+			if last == nil {
 				return false, "the clone's Data is not set"
+			}
+			if !mResOf(0, mCall("bkl.deepClone", mOp("field", mParam("d"))))(last) {
+				return false, "the clone's Data is " + last.String() + ", not a deep copy of the original's Data"
 			}
 			return true, ""
 		})
